@@ -473,6 +473,8 @@ class Run:
             if ty is not None and st.target.id not in fr.local_types:
                 fr.local_types[st.target.id] = ty
         hint = fr.local_types.get(getattr(st.target, "id", None))
+        if isinstance(st.target, ast.Name):
+            hint = self.x.local_type(fr.finfo, st.target.id) or hint
         if isinstance(st.target, ast.Attribute):
             hint = self.attr_type_hint(st.target, fr)
         v = self.ev_typed(st.value, fr, hint)
